@@ -188,6 +188,7 @@ def obligations(ctx):
     preimage_layout(ctx)
     aux_data_hash(ctx)
     language_views(ctx)
+    used_languages(ctx)
 
 
 def dedup_notions(ctx):
@@ -491,3 +492,83 @@ def language_views(ctx):
             ob.vc("%s: keys and costs are the versions' own, in canonical key order" % (list(langs),), o.pc, z3.And(eqs))
             agg.stats["paths"] += E.stats["paths"]; agg.stats["feasibility_queries"] += E.stats["feasibility_queries"]; agg.stats["functions"] |= E.stats["functions"]
     ob.finish(agg, lambda m, info=None: ("e2n_c09_battery", []))
+
+
+def used_languages(ctx):
+    """'the language views of exactly the Plutus versions in use': each sub-builder reports the language of EVERY Plutus witness it
+    holds - script attached or supplied through a reference input alike - and nothing for native-script / key items.  The six
+    get_used_plutus_lang_versions are executed from MIR on 1-2 items per builder (Plutus attached / Plutus by reference / native /
+    none); PlutusScriptSourceEnum::language is executed too, down to PlutusScript::language_version / the reference's language field."""
+    import itertools
+    P = ctx.P
+    ob = Obligation(ctx, "c09_e2_used_languages_cover_every_plutus_witness", "six sub-builders x 1-2 items x witness kinds {Plutus attached, Plutus by reference, native script, none}; languages arbitrary",
+                    ["TxInputsBuilder / MintBuilder / CertificatesBuilder / WithdrawalsBuilder / VotingBuilder / VotingProposalBuilder ::get_used_plutus_lang_versions", "PlutusScriptSourceEnum::language"],
+                    fallback_native="e2n_c09_ref_script_languages")
+    agg = Engine(P)
+    KINDS = ["PA", "PR", "N", "-"]
+    def wit(E, j, k):
+        if k == "-":
+            return opt(None)
+        if k == "N":
+            return opt(VEnum("ScriptWitnessType", "NativeScriptWitness", [VLazy("ns%d" % j, "NativeScriptSourceEnum")]))
+        return opt(VEnum("ScriptWitnessType", "PlutusScriptWitness", [E.mk_struct("PlutusWitness", script=src(E, j, k), datum=VLazy("d%d" % j, "Option<DatumSourceEnum>"), redeemer=VLazy("r%d" % j, "Redeemer"))]))
+    def src(E, j, k):
+        if k == "PA":
+            return VEnum("PlutusScriptSourceEnum", "Script", [VLazy("script%d" % j, "PlutusScript"), VLazy("sg%d" % j, "Option<Ed25519KeyHashes>")])
+        return VEnum("PlutusScriptSourceEnum", "RefInput", [E.mk_struct("PlutusScriptRef", language=VLazy("reflang%d" % j, "Language")), VLazy("sg%d" % j, "Option<Ed25519KeyHashes>")])
+    builders = {
+        "TxInputsBuilder": lambda E, ws: E.mk_struct("TxInputsBuilder", required_witnesses=E.mk_struct("InputsRequiredWitness", scripts=VSeq([VStruct("()", [VLazy("sh", "ScriptHash"), VSeq([VStruct("()", [VLazy("in%d" % j, "TransactionInput"), w]) for j, w in enumerate(ws)], "map")])], "map"))),
+        "CertificatesBuilder": lambda E, ws: E.mk_struct("CertificatesBuilder", certs=VSeq([VStruct("()", [VLazy("cert%d" % j, "Certificate"), w]) for j, w in enumerate(ws)], "map")),
+        "WithdrawalsBuilder": lambda E, ws: E.mk_struct("WithdrawalsBuilder", withdrawals=VSeq([VStruct("()", [VLazy("acct%d" % j, "RewardAddress"), VStruct("()", [VLazy("coin%d" % j, "BigNum"), w])]) for j, w in enumerate(ws)], "map")),
+        "VotingBuilder": lambda E, ws: E.mk_struct("VotingBuilder", votes=VSeq([VStruct("()", [VLazy("voter%d" % j, "Voter"), E.mk_struct("VoterVotes", script_witness=w, votes=VLazy("vv%d" % j, "BTreeMap<GovernanceActionId, VotingProcedure>"))]) for j, w in enumerate(ws)], "map")),
+        "VotingProposalBuilder": lambda E, ws: E.mk_struct("VotingProposalBuilder", proposals=VSeq([VStruct("()", [VLazy("prop%d" % j, "VotingProposal"), w]) for j, w in enumerate(ws)], "map")),
+    }
+    nok = 0
+    for bname, mkb in list(builders.items()) + [("MintBuilder", None)]:
+        for n in (1, 2):
+            for pat in itertools.product(KINDS if bname != "MintBuilder" else ["PA", "PR", "N"], repeat=n):
+                E = Engine(P, max_loop=n + 4)
+                E.U = agg.U
+                def lang_of_script(E_, c, a):
+                    s_ = VM.deref(E_, a[0])
+                    return VOpaque("lang", [], z3.Function("language_of_script", E_.U, E_.U)(E_.as_u(s_)))
+                E.extra_intrinsics[r"PlutusScript::language_version$"] = lang_of_script
+                def ins(E_, c, a):
+                    E_.read_ref(a[0]).items.append(VM.deref(E_, a[1]))
+                    return VBool(z3.BoolVal(True))
+                E.extra_intrinsics[r"BTreeSet::<.*Language>::insert$"] = ins
+                E.extra_intrinsics[r"BTreeSet::<.*Language>::new$"] = lambda E_, c, a: VSeq([], "set")
+                def mk(E=E, pat=pat, bname=bname, mkb=mkb):
+                    if bname == "MintBuilder":
+                        ents = []
+                        for j, k in enumerate(pat):
+                            sm = VEnum("ScriptMint", "Native", [VLazy("nm%d" % j, "NativeMints")]) if k == "N" else \
+                                VEnum("ScriptMint", "Plutus", [E.mk_struct("PlutusMints", script=src(E, j, k), redeemer=VLazy("r%d" % j, "Redeemer"), mints=VLazy("m%d" % j, "BTreeMap<AssetName, Int>"))])
+                            ents.append(VStruct("()", [VLazy("policy%d" % j, "ScriptHash"), sm]))
+                        return [R(E.mk_struct("MintBuilder", mints=VSeq(ents, "map")), "self")]
+                    return [R(mkb(E, [wit(E, j, k) for j, k in enumerate(pat)]), "self")]
+                try:
+                    outs = E.explore("%s::get_used_plutus_lang_versions" % bname, mk, max_paths=50)
+                except Unsupported as e:
+                    ob.fail("%s %s: cannot be executed (%s)" % (bname, "/".join(pat), str(e)[:160])); continue
+                for o in outs:
+                    if o.kind != "return":
+                        ob.vc("%s: no panic (%s %s)" % (bname, o.kind, o.msg[:60]), o.pc, z3.BoolVal(False)); continue
+                    nok += 1
+                    E.enter(o)
+                    got = [E.as_u(VM.deref(E, x)) for x in VM.deref(E, o.value).items]
+                    want = []
+                    for j, k in enumerate(pat):
+                        if k == "PA":
+                            want.append(z3.Function("language_of_script", E.U, E.U)(E.as_u(VLazy("script%d" % j, "PlutusScript"))))
+                        elif k == "PR":
+                            want.append(E.as_u(VLazy("reflang%d" % j, "Language")))
+                    if len(got) != len(want):
+                        ob.violation("%s with witnesses %s: %d languages reported, %d Plutus witnesses (attached or by reference) are held" % (bname, "/".join(pat), len(got), len(want))); continue
+                    if want:
+                        ob.vc("%s with witnesses %s: the languages reported are those of the Plutus witnesses" % (bname, "/".join(pat)), o.pc, z3.And([g == w for g, w in zip(got, want)]))
+                agg.stats["paths"] += E.stats["paths"]; agg.stats["feasibility_queries"] += E.stats["feasibility_queries"]; agg.stats["functions"] |= E.stats["functions"]
+    if nok < 60:
+        ob.fail("only %d executions" % nok)
+    ob.cross_every = 8
+    ob.finish(agg, lambda m, info=None: ("e2n_c09_ref_script_languages", []))
